@@ -215,7 +215,7 @@ pub struct SerSpace {
     thorough: bool,
 }
 
-const FIELD_NAMES: [&str; 2] = ["zb", "a"];
+const FIELD_NAMES: [&str; 3] = ["zb", "a", "m"];
 
 impl SerSpace {
     pub fn new(thorough: bool) -> Self {
@@ -227,6 +227,27 @@ impl SerSpace {
         for i in 0..types.len() {
             for j in 0..types.len() {
                 schemas.push(vec![i, j]);
+            }
+        }
+        if thorough {
+            // three-field schemas over 12 types (value alphabets cut to ≤4 per field)
+            let idx: Vec<usize> = types
+                .iter()
+                .enumerate()
+                .filter(|(i, t)| {
+                    *i < 7
+                        || matches!(t, Ty::Opt(b) if matches!(**b, Ty::Int | Ty::Str | Ty::Inner))
+                        || **t == Ty::Res(Box::new(Ty::Int), Box::new(Ty::Str))
+                        || **t == Ty::Opt(Box::new(Ty::Opt(Box::new(Ty::Int))))
+                })
+                .map(|(i, _)| i)
+                .collect();
+            for &i in &idx {
+                for &j in &idx {
+                    for &k in &idx {
+                        schemas.push(vec![i, j, k]);
+                    }
+                }
             }
         }
         let per_machine = 300;
@@ -261,6 +282,22 @@ impl SerSpace {
             for v in &vals[0] {
                 out.push(vec![v.clone()]);
             }
+        } else if sch.len() == 3 {
+            let small = |v: &Vec<Value>| -> Vec<Value> {
+                if v.len() <= 4 {
+                    v.clone()
+                } else {
+                    vec![v[0].clone(), v[1].clone(), v[v.len() - 2].clone(), v[v.len() - 1].clone()]
+                }
+            };
+            let (a, b, c) = (small(&vals[0]), small(&vals[1]), small(&vals[2]));
+            for x in &a {
+                for y in &b {
+                    for z in &c {
+                        out.push(vec![x.clone(), y.clone(), z.clone()]);
+                    }
+                }
+            }
         } else {
             for v in &vals[0] {
                 for w in &vals[1] {
@@ -274,6 +311,9 @@ impl SerSpace {
     /// Raw byte strings tried against a schema, in blocks (one block = one case id).
     fn raw_blocks(&self, u: u64) -> u64 {
         let one_field = self.schemas[u as usize].len() == 1;
+        if self.schemas[u as usize].len() == 3 {
+            return 1;
+        }
         if one_field || self.thorough {
             // block 0: len 0 and 1; blocks 1..=256: len 2 by first byte; block 257: len 3–4 over 16 values (one-field only)
             if one_field {
@@ -383,7 +423,7 @@ impl SerSpace {
         for (pos, mark) in &marks {
             match mark {
                 Mark::OptTag | Mark::ResTag => {
-                    let all_tags = self.thorough || sch.len() == 1;
+                    let all_tags = (self.thorough && sch.len() < 3) || sch.len() == 1;
                     for t in (2..=255u8).filter(|t| all_tags || [2, 3, 0x7f, 0x80, 0xff].contains(t)) {
                         let mut d = bytes.clone();
                         d[*pos] = t;
@@ -591,7 +631,7 @@ pub fn run(args: &Args) {
     common::fold(&mut rep, "ser", acc);
     rep.set(
         "rule",
-        "all struct schemas with ≤2 fields over 45 types (int,bool,string,bytes,id,enum,struct Inner; option/result nested ≤2), compiled by the real compiler × all tuples of boundary values (cross product) → serialize/deserialize through Machine::{serialize,deserialize}_struct and the Serialize/Deserialize instructions; per encoding: every truncation, 4 trailing bytes, every option/result tag 2..=255 (quick, two-field schemas: tags 2,3,0x7f,0x80,0xff), enum values outside, UTF-8 / NUL corruptions of string bodies, id lengths ≠32, 9 byte values + 2 huge varints + adjacent swap at every position (≤48); raw byte strings: all of length ≤2 (one-field schemas; thorough: all schemas), length 3–4 over 16 values (one-field schemas), length ≤1 otherwise. non-trivial = distinct (schema, value tuple) that completed the full round trip",
+        "all struct schemas with ≤2 fields over 45 types (thorough: plus all three-field schemas over 12 of them, ≤4 values per field) (int,bool,string,bytes,id,enum,struct Inner; option/result nested ≤2), compiled by the real compiler × all tuples of boundary values (cross product) → serialize/deserialize through Machine::{serialize,deserialize}_struct and the Serialize/Deserialize instructions; per encoding: every truncation, 4 trailing bytes, every option/result tag 2..=255 (quick, two-field schemas: tags 2,3,0x7f,0x80,0xff), enum values outside, UTF-8 / NUL corruptions of string bodies, id lengths ≠32, 9 byte values + 2 huge varints + adjacent swap at every position (≤48); raw byte strings: all of length ≤2 (one-field schemas; thorough: all schemas), length 3–4 over 16 values (one-field schemas), length ≤1 otherwise. non-trivial = distinct (schema, value tuple) that completed the full round trip",
     );
     rep.set("exhaustive", complete);
     if rep.counter("reference_encoder_disagrees") > 0 {
